@@ -144,3 +144,98 @@ func VH_C18_writetext_codes() {
 	}
 	vAssertI("C18.writetext.codes_decode_back", good)
 }
+
+// C18: "advances the pen by the laid-out advances".  WriteText shows glyphs with their hmtx (or
+// vmtx) advances and corrects the pen with TJ numbers (thousandths of an em, subtracted from the
+// pen position; ISO 32000-1 9.4.3).  For every glyph j the numbers written between glyph j and
+// glyph j+1 must make up the difference between the laid-out advance and the font's own advance:
+// | n_j + (laid_j - own_j) * 1000/unitsPerEm | <= 0.5 (the writer works in whole thousandths).
+// Laid-out advances, own advances (stubbed GlyphAdvance / GlyphVerticalAdvance) symbolic,
+// unitsPerEm from a set, 1-2 (thorough 3) glyphs, horizontal and vertical.  Interpreter-only: the
+// stubs exist only under the engine.
+var vhC18Shown int
+var vhC18Own [8]uint16
+
+type vhC18AdjT struct {
+	after int
+	n     int
+}
+
+var vhC18Adj []vhC18AdjT
+
+func vhC18CountCode(s *canvas.FontSubsetter, glyphID uint16) uint16 {
+	vhC18Shown++
+	return glyphID
+}
+func vhC18OwnAdvance(s *canvasFont.SFNT, g uint16) uint16 { return vhC18Own[g&7] }
+
+func vhC18FprintfAdj(w io.Writer, format string, a ...interface{}) (int, error) {
+	if format == " %d" && len(a) == 1 {
+		if n, ok := a[0].(int); ok {
+			vhC18Adj = append(vhC18Adj, vhC18AdjT{vhC18Shown, n})
+		}
+	}
+	return 0, nil
+}
+
+func VH_C18_writetext_advances_Q() {
+	if !vInterp() {
+		return
+	}
+	vStub("!(*github.com/tdewolff/canvas.FontSubsetter).Get", vhC18CountCode)
+	vStub("!(*github.com/tdewolff/font.SFNT).GlyphAdvance", vhC18OwnAdvance)
+	vStub("!(*github.com/tdewolff/font.SFNT).GlyphVerticalAdvance", vhC18OwnAdvance)
+	vStub("!fmt.Fprintf", vhC18FprintfAdj)
+	upems := []uint16{1000, 2048, 1024, 2000, 256}
+	upem := upems[vChoose(0, len(upems)-1)]
+	vertical := vChoose(0, 1) == 1
+	sf := &canvasFont.SFNT{IsTrueType: true}
+	sf.Head = vhC18New(sf.Head)
+	sf.Head.UnitsPerEm = upem
+	f := &canvas.Font{SFNT: sf}
+	pw := &pdfWriter{fontSubset: map[*canvas.Font]*canvas.FontSubsetter{f: canvas.NewFontSubsetter()}}
+	w := &pdfPageWriter{Buffer: &bytes.Buffer{}, pdf: pw, font: f, fontSize: 10, inTextObject: true}
+	n := vChoose(1, 2+vTier())
+	glyphs := make([]canvasText.Glyph, n)
+	laid := make([]int32, n)
+	for i := range glyphs {
+		vhC18Own[i+1] = uint16(vNondetIntN(13)) & 0x0FFF
+		laid[i] = int32(vNondetIntN(14))
+		glyphs[i] = canvasText.Glyph{SFNT: sf, Size: 10, ID: uint16(i + 1), Vertical: vertical}
+		if vertical {
+			glyphs[i].YAdvance = laid[i]
+		} else {
+			glyphs[i].XAdvance = laid[i]
+		}
+	}
+	vhC18Shown = 0
+	vhC18Adj = nil
+	mode := canvas.HorizontalTB
+	if vertical {
+		mode = canvas.VerticalRL
+	}
+	w.WriteText(mode, glyphs)
+	vAssertI("C18.advances.all_glyphs_shown", vhC18Shown == n)
+	good := true
+	for j := 0; j < n; j++ {
+		own := int32(vhC18Own[j+1])
+		if vertical {
+			own = -own
+		}
+		sum := 0
+		for _, a := range vhC18Adj {
+			if a.after == j+1 {
+				sum += a.n
+			}
+		}
+		want := float64(laid[j]-own) * 1000.0 / float64(upem)
+		err := float64(sum) + want
+		good = good && -0.5-1e-9 <= err && err <= 0.5+1e-9
+	}
+	vAssertI("C18.advances.tj_numbers_make_up_the_difference", good)
+	nowhere := true
+	for _, a := range vhC18Adj {
+		nowhere = nowhere && 1 <= a.after && a.after <= n
+	}
+	vAssertI("C18.advances.no_number_before_the_first_glyph", nowhere)
+}
